@@ -4,12 +4,12 @@ reg(Prop('C05', [
     Stream('c05.pe', 1, 1, 'spec', exhaustive='all 256 DW_EH_PE bytes: validity, format, application, absent, indirect'),
     Stream('c05.ptr', 4000, 400000, 'model', exhaustive='all 256 encoding bytes x address sizes {0..9,16,32,255} x bases present/absent (accept/reject + decoded pointer); every valid encoding x sizes 1,2,4,8 x 18 boundary values x 4 base sets x both byte orders'),
     Stream('c05.ent', 1500, 250000, 'model', exhaustive='every order of every subset of zLPRS (65) x {eh_frame v1, debug_frame v1,v3,v4} x 32/64-bit x LE/BE'),
-    Stream('c05.raw', 3000, 400000, 'model', exhaustive='every 0- and 1-byte section, zero/reserved/64-bit length prefixes, both kinds'),
-    Stream('c05.look', 500, 120000, 'model', exhaustive='grid of c05.ent with probes start-1,start,start+1,end-1,end,end+1 of every FDE'),
+    Stream('c05.raw', 2500, 400000, 'model', exhaustive='every 0- and 1-byte section, zero/reserved/64-bit length prefixes, both kinds'),
+    Stream('c05.look', 300, 120000, 'model', exhaustive='grid of c05.ent with probes start-1,start,start+1,end-1,end,end+1 of every FDE'),
     Stream('c05.lraw', 1000, 150000, 'model'),
-    Stream('c05.hdr', 300, 50000, 'model', exhaustive='table lengths 1,2,3,4,5,7,8,16,33 on every run'),
-    Stream('c05.hraw', 500, 70000, 'model', exhaustive='witness families for the two unchecked u64 operations of EhHdrTable'),
-    Stream('c05.nopanic', 300, 40000, 'oracle'),
+    Stream('c05.hdr', 200, 50000, 'model', exhaustive='table lengths 1,2,3,4,5,7,8,16,33 on every run'),
+    Stream('c05.hraw', 400, 70000, 'model', exhaustive='witness families for the two unchecked u64 operations of EhHdrTable'),
+    Stream('c05.nopanic', 200, 40000, 'oracle'),
 ], clauses=[], design_ref='§5 C05',
     level_text='placeholder',
     level_note='',
